@@ -101,7 +101,7 @@ def run(ctx):
     # iterator form of the same loop: content.split_inclusive('\n').flat_map(|line| { wrapper.reset(); wrapper.wrap(find_words(line).collect()) }).collect()
     fmap = [c for c in tw.calls_to(r"Iterator>?::flat_map$") if re.fullmatch(r"split_inclusive\(content,(10|'\\n')\)", expr(tw, c.args[0]))]
     for c in fmap:
-        rets = [expr(cb, 0) for cb in closure_bodies(fx, c)[-1:]]
+        rets = [expr(cb, 0) for cb in own_closures(fx, c)]
         okm = bool(rets) and all(re.fullmatch(r"wrap\(.*,collect\(find_words_ascii_space\(\w+\)\)\)", r_) is not None for r_ in rets)
         res.check(okm, "R20.1", "textwrap-wrap-source", c.where(), "split_inclusive('\\n').flat_map(|line| wrapper.wrap(find_words(line)))",
                   "textwrap::wrap output is no longer just the wrapped words of each input line: %s" % rets)
